@@ -181,7 +181,11 @@ func (fc *ProtoForkChoice) ProcessAttestation(index ValidatorIndex, blockRoot Ro
 	defer fc.mu.Unlock()
 	// only add the vote if we can. Don't add if it's not within view.
 	blockSlot, ok := fc.protoArray.GetSlot(blockRoot)
-	if !ok || blockSlot < headSlot {
+	if !ok || headSlot < blockSlot {
+		return false
+	}
+	// The vote is for the node (blockRoot, headSlot): a gap slot node if headSlot is after the block. It has to exist.
+	if _, ok := fc.protoArray.Indices()[NodeRef{Root: blockRoot, Slot: headSlot}]; !ok {
 		return false
 	}
 	return fc.voteStore.ProcessAttestation(index, blockRoot, headSlot)
